@@ -65,13 +65,14 @@ def _raw(nrows, nc):
     return LArr((nrows, nc), lambda s, c: SInt(f(larr._int_term(s), larr._int_term(c))), aid=larr.const_aid("rawfile"), tag=np.dtype(np.int16))
 
 
-def _mk(ctx, nc, fs_key, online=False, cbin=False):
+def _mk(ctx, nc, fs_key, online=False, cbin=False, no_duration=False):
     import spikeglx
     n = nc - 1
     B = ctx.int("B", 2 * nc, 10 ** 12)
     T = ctx.real("claimed_secs", 0, 10 ** 6)
     sites = [(0, i % 2, i // 2) for i in range(n)]
-    txt = sglx.imec_meta_text("3B2", sites, ns=sglx.S(T), fs_hz=FS[fs_key], file_size=123)
+    # a recording still being acquired has no fileTimeSecs in its metadata yet
+    txt = sglx.imec_meta_text("3B2", sites, ns=None if no_duration else sglx.S(T), fs_hz=FS[fs_key], file_size=None if no_duration else 123)
     F = fakefs.install(fakefs.FakeFS())
     F.add("/d/x.imec.ap.meta", True, len(txt), [{"pos": 0, "text": txt}])
     frames = B // (2 * nc)
@@ -85,13 +86,13 @@ def _mk(ctx, nc, fs_key, online=False, cbin=False):
         F.add("/d/x.imec.ap.bin", True, B, _raw(frames, nc))
         path = FakePath("/d/x.imec.ap.bin")
     cls = spikeglx.OnlineReader if online else spikeglx.Reader
-    iw = bool(ctx.bool("ignore_warnings"))      # with and without the "streaming" switch: it may silence warnings, nothing else
+    iw = True if no_duration else bool(ctx.bool("ignore_warnings"))      # with and without the "streaming" switch: it may silence warnings, nothing else
     sr = ctx.call("open", cls, path, ignore_warnings=iw)
     return sr, B, T, frames
 
 
-def case_open(ctx, nc, fs_key, online, cbin):
-    sr, B, T, frames = _mk(ctx, nc, fs_key, online, cbin)
+def case_open(ctx, nc, fs_key, online, cbin, no_duration=False):
+    sr, B, T, frames = _mk(ctx, nc, fs_key, online, cbin, no_duration=no_duration)
     _check_reader(ctx, sr, frames, nc, fs_key, online)
 
 
@@ -220,6 +221,7 @@ def cases(tier):
             cs.append(Case(f"offline_nc{nc}_fs{fk}", "case_open", {"nc": nc, "fs_key": fk, "online": False, "cbin": False}, timeout_s=1200))
     cs.append(Case("online_nc4", "case_open", {"nc": 4, "fs_key": "30000", "online": True, "cbin": False}))
     cs.append(Case("online_nc2_frac", "case_open", {"nc": 2, "fs_key": "frac", "online": True, "cbin": False}))
+    cs.append(Case("online_nc4_metadata_without_duration", "case_open", {"nc": 4, "fs_key": "30000", "online": True, "cbin": False, "no_duration": True}))
     cs.append(Case("cbin_nc4", "case_open", {"nc": 4, "fs_key": "30000", "online": False, "cbin": True}))
     cs.append(Case("cbin_nc2_frac", "case_open", {"nc": 2, "fs_key": "frac", "online": False, "cbin": True}))
     cs.append(Case("open_later_nc4", "case_open_later", {"nc": 4, "fs_key": "30000", "reopen": False}, timeout_s=1200))
@@ -322,7 +324,9 @@ if cbin:
     if len(sr[k - 1:k, :]) != 1: reproduced('the last frame cannot be read')
     not_reproduced()
 sites = [(0, i % 2, i // 2) for i in range(nc - 1)] if nc <= 8 else [(0, i % 2, i // 2) for i in range(384)]
-txt = sglx.imec_meta_text('3B2', sites, ns=format(T, '.12f'), fs_hz={FS[fk]!r}, file_size=123)
+no_duration = {bool(params.get('no_duration'))}
+if no_duration: iw = True
+txt = sglx.imec_meta_text('3B2', sites, ns=None if no_duration else format(T, '.12f'), fs_hz={FS[fk]!r}, file_size=None if no_duration else 123)
 (d / 'x.imec.ap.meta').write_text(txt)
 frames = B // (2 * nc)
 data = (np.arange(frames * nc, dtype=np.int64) % 30000).astype(np.int16)
